@@ -375,6 +375,8 @@ def run_case(case, reports=False, keep_objects=False):
                 att = 0
                 if nm == "before_all" and cfg.get("logclear") and mark not in root.handlers:
                     root.addHandler(mark)
+                if nm == "before_all" and cfg.get("setuplog"):
+                    ctx.config.setup_logging(level=cfg["setuplog"])         # public API: level chosen at run time
                 if nm == "before_all" and cfg.get("rootlvl0"):
                     root.setLevel(logging.NOTSET)
                 if el and elems[el - 1]["kind"] == "scenario":
@@ -429,6 +431,9 @@ def run_case(case, reports=False, keep_objects=False):
                     raise RuntimeError(ftext)
             return h
         runner.hooks = {n: mk(n) for n in HOOKS}
+        if cfg.get("capdeco"):
+            from behave.log_capture import capture as _capture_decorator
+            runner.hooks["after_scenario"] = _capture_decorator(runner.hooks["after_scenario"])
         config.base_dir = os.getcwd()
         runner.formatters = make_formatters(config, config.outputs)
         saved_cont = Scenario.continue_after_failed_step
